@@ -30,6 +30,11 @@ type Entry struct {
 	Data   []byte
 	Target string // symlink target (as written) or hard-link source path
 	Mode   os.FileMode
+	// StaleBak: a file that already occupies the name <input>.bak before an in-place run. The
+	// command takes that name for its own backup; what becomes of a file already there is not
+	// pinned by the README, so it is not judged - it is there to see whether the command
+	// confuses it with its own backup.
+	StaleBak bool
 }
 
 // Tree is a scenario directory tree.
